@@ -6,7 +6,7 @@ CONSTANTS
   LEAFS = {1, 2}
   SEED = 1
   BRANCH = 2
-  DEPTHS = {1000, 100000}
+  DEPTHS = {1000, 10000, 100000}
   BIGDEPTHS = {}
   VARIANT = "ok"
   ALG = FALSE
